@@ -336,6 +336,9 @@ class Base(_BaseClass):
         if starttoken:
             resulttokens.append(starttoken)
             val = starttoken[1]
+            if Base._prods.IDENT == starttoken[0]:
+                # (an identifier written as an escaped delimiter is none)
+                val = None
             if '[' == val:
                 bracket += 1
             elif '{' == val:
@@ -350,6 +353,11 @@ class Base(_BaseClass):
                 if 'EOF' == typ:
                     resulttokens.append(token)
                     break
+
+                if Base._prods.IDENT == typ:
+                    # only real delimiters nest or end something, not an
+                    # identifier which looks like one (written \7B )
+                    val = None
 
                 if '{' == val:
                     brace += 1
@@ -368,7 +376,7 @@ class Base(_BaseClass):
                 resulttokens.append(token)
 
                 if (brace == bracket == parant == 0) and (
-                    val in ends or typ in endtypes
+                    (val is not None and val in ends) or typ in endtypes
                 ):
                     break
                 elif (
